@@ -79,7 +79,7 @@ def fmtStd (_ : St) : Out → String
   | .ended => "= end"
   | .refused why => "= err " ++ why
 
-def step (st : St) (line : String) : St × String :=
+def stepS (st : St) (line : String) : St × String :=
   let bad := (st, "= err bad-op")
   let toks := line.splitOn " "
   if toks.length > 8 then bad else
@@ -196,6 +196,86 @@ def step (st : St) (line : String) : St × String :=
     | none => bad
   | _ => bad
 
-def run (i o : IO.FS.Stream) : IO Unit := Drv.runStateful St.init step i o
+/-- driver state: the model state plus the bookkeeping of the connection-object ops, which have no model
+    (their blocks are kept out of `live` by the harness): per connection slot `some hasState`, per state
+    slot whether it is occupied -/
+structure DSt where
+  st : St
+  conns : List (Option Bool)
+  sms : List Bool
+
+def DSt.init : DSt := ⟨St.init, List.replicate 4 none, List.replicate 4 false⟩
+
+def smallSlot (tok : String) (pfx : Char) : Option Nat :=
+  match tok.toList with
+  | [p, d] => if p = pfx ∧ '0' ≤ d ∧ d < '4' then some (d.toNat - 48) else none
+  | _ => none
+
+def digit1 (tok : String) : Option Nat :=
+  match tok.toList with
+  | [d] => if d.isDigit then some (d.toNat - 48) else none
+  | _ => none
+
+def step (d : DSt) (line : String) : DSt × String :=
+  let bad := (d, "= err bad-op")
+  let live := s!" live {d.st.mem.blocks}"
+  match line.splitOn " " with
+  | ["gth", n, k] =>
+    match digit1 n, digit1 k with
+    | some n, some k => if n > 8 || k > n then bad else (d, "= gth" ++ live)
+    | _, _ => bad
+  | ["cnew", c] =>
+    match smallSlot c 'c' with
+    | none => bad
+    | some c =>
+      if (d.conns.getD c none).isSome then (d, "= err busy")
+      else ({ d with conns := d.conns.set c (some false) }, "= ok" ++ live)
+  | ["crestore", c, h] =>
+    match smallSlot c 'c', Hex.toBytes h with
+    | some c, some _ =>
+      match d.conns.getD c none with
+      | none => (d, "= err novar")
+      | some true => (d, "= rc -2" ++ live)
+      | some false => ({ d with conns := d.conns.set c (some true) }, "= rc 0" ++ live)
+    | _, _ => bad
+  | ["smget", c, v] =>
+    match smallSlot c 'c', smallSlot v 's' with
+    | some c, some v =>
+      match d.conns.getD c none with
+      | none => (d, "= err novar")
+      | some has =>
+        if d.sms.getD v false then (d, "= err busy")
+        else if has then ({ d with conns := d.conns.set c (some false), sms := d.sms.set v true }, "= ok" ++ live)
+        else (d, "= null" ++ live)
+    | _, _ => bad
+  | ["smset", c, v] =>
+    match smallSlot c 'c', smallSlot v 's' with
+    | some c, some v =>
+      match d.conns.getD c none, d.sms.getD v false with
+      | some has, true =>
+        if has then (d, "= rc -2" ++ live)
+        else ({ d with conns := d.conns.set c (some true), sms := d.sms.set v false }, "= rc 0" ++ live)
+      | _, _ => (d, "= err novar")
+    | _, _ => bad
+  | ["smfree", v] =>
+    match smallSlot v 's' with
+    | none => bad
+    | some v =>
+      if d.sms.getD v false then ({ d with sms := d.sms.set v false }, "= ok" ++ live) else (d, "= err novar")
+  | ["crel", c] =>
+    match smallSlot c 'c' with
+    | none => bad
+    | some c =>
+      match d.conns.getD c none with
+      | none => (d, "= err novar")
+      | some _ => ({ d with conns := d.conns.set c none }, "= freed 1" ++ live)
+  | ["end"] =>
+    let (st', out) := stepS d.st line
+    ({ DSt.init with st := st' }, out)
+  | _ =>
+    let (st', out) := stepS d.st line
+    ({ d with st := st' }, out)
+
+def run (i o : IO.FS.Stream) : IO Unit := Drv.runStateful DSt.init step i o
 
 end Strophe.Drv.Own
